@@ -3,7 +3,7 @@ working tree, harness, extracted driver), generate, run both sides, compare
 (correspondence), evaluate the property on the implementation (violation search),
 classify against known_findings.json, write evidence, print VIOLATION / KNOWN-FINDING."""
 import argparse, importlib, json, os, random, subprocess, sys, time, traceback
-from . import build, caseio
+from . import build, caseio, pins
 
 VERIF = build.VERIF
 REAL_AXIOMS = ["ClassicalDedekindReals.sig_forall_dec", "ClassicalDedekindReals.sig_not_dec",
@@ -277,6 +277,43 @@ def dump_record(rec):
     return "\n".join(lines) + "\n"
 
 
+
+def widen_if_needed(ctx, plugin, a):
+    """Quick tier only. When a proof or the correspondence no longer checks, or when a source file the property is
+    anchored in differs from the pinned text the check was validated against (vlib/pins.py), and the quick sample
+    found no input violating a property clause, the search for a concrete failing input is widened: the thorough
+    generator with another seed, capped at SEARCH_CASES.  An edited source alone is never reported."""
+    if a.replay or a.tier != "quick":
+        return
+    try:
+        changed = pins.changed(ctx.pid, plugin)
+    except Exception as e:
+        changed = ["<pins unreadable: %r>" % (e,)]
+    ctx.extra["anchored_sources_changed_since_validation"] = changed
+    forced = os.environ.get("VERIF_FORCE_WIDEN") == "1"     # validation of the widened generators on the unchanged tree
+    if ctx.violations or not (ctx.proof_problems or ctx.corr_diffs or changed or forced):
+        return
+    try:
+        import random as _r
+        rng2 = _r.Random(ctx.seed * 7919 + 17)
+        if hasattr(plugin, "search_cases"):
+            more = plugin.search_cases(rng2)
+        elif hasattr(plugin, "generate") and (not hasattr(plugin, "main") or getattr(plugin, "WIDEN_DEFAULT", False)):
+            more = plugin.generate(rng2, "thorough")[:int(getattr(plugin, "SEARCH_CASES", 3000))]
+        else:
+            return
+        for c in more:
+            c.id = "s%s" % c.id
+        why = "proof/correspondence broken" if (ctx.proof_problems or ctx.corr_diffs) else "anchored sources edited (%s)" % ", ".join(os.path.basename(x) for x in changed[:4])
+        ctx.log("%s: widening the search to %d more cases" % (why, len(more)))
+        ctx.extra["widened_search_cases"] = len(more)
+        standard_cases(ctx, more)
+    except build.BuildError:
+        raise
+    except Exception as e:
+        ctx.log("widened search failed: %r" % (e,))
+
+
 # ------------------------------------------------------------------ reporting
 
 def finish(ctx):
@@ -374,22 +411,20 @@ def main(argv):
             cases = plugin.generate(ctx.rng, a.tier)
         if cases:
             standard_cases(ctx, cases)
-        if (not a.replay and a.tier == "quick" and (ctx.proof_problems or ctx.corr_diffs) and not ctx.violations
-                and hasattr(plugin, "generate")):
-            # a proof or the correspondence no longer checks: widen the search for a concrete failing input
-            try:
-                import random as _r
-                more = plugin.generate(_r.Random(ctx.seed * 7919 + 17), "thorough")[:int(getattr(plugin, "SEARCH_CASES", 3000))]
-                for i, c in enumerate(more):
-                    c.id = "s%s" % c.id
-                ctx.log("proof/correspondence broken: widening the search to %d more cases" % len(more))
-                ctx.extra["widened_search_cases"] = len(more)
-                standard_cases(ctx, more)
-            except Exception as e:
-                ctx.log("widened search failed: %r" % (e,))
+        widen_if_needed(ctx, plugin, a)
         if hasattr(plugin, "histogram"):
             ctx.extra["histogram"] = plugin.histogram(cases)
         return finish(ctx)
     except build.BuildError as e:
         print("BUILD-ERROR %s: %s\n%s" % (a.pid, e.what, e.log[-3000:]), file=sys.stderr)
-        return 2
+        if e.what.startswith("library does not compile"):
+            return 2      # the tree does not build: there is nothing to check
+        # the library builds but the harness / driver that ties the model to it does not (an interface the tie
+        # relies on changed): the property is no longer shown to hold on this tree
+        ctx.proof_problems.append("tie to the code: %s: %s" % (e.what, tail_error(e.log)))
+        try:
+            return finish(ctx)
+        except Exception:
+            path = write_replay(ctx, None, ["property=%s" % ctx.pid, "no longer checks: %s" % e.what], "broken")
+            print("VIOLATION property=%s replay=%s no-failing-input-found" % (ctx.pid, path), flush=True)
+            return 1
